@@ -1,7 +1,7 @@
 (* C12 correspondence cases: what the harness observed on the real code, and the function `ok`
    that re-runs the models on the same inputs and compares.  Imported by the generated shards. *)
 From ZV.Common Require Import Base Run.
-From ZV.C12 Require Import Spec Model ModelDict ModelEsa.
+From ZV.C12 Require Import Spec Model ModelDict ModelEsa ModelSais.
 Open Scope nat_scope.
 
 Definition alg_of (k : N) : alg :=
@@ -121,7 +121,9 @@ Inductive case_t :=
 | Dict (t : list N) (sa : list N) (ranges : list range_call_t) (conts : list cont_call_t) (das : list da_call_t)
 | EsaAlg (res : N) (t : list N) (sa1 : list N) (lcp_probes : list (option N)) (sa2 : list N) (bw : list N)
 | EsaComp (with_lcp : bool) (t : list N) (sa : list N) (sa_probes lcp_probes : list (option N))
-          (tl len : N) (empty : bool).
+          (tl len : N) (empty : bool)
+(* SA-IS: optimize_small_alphabet, text, the array the implementation returned *)
+| Sais (opt : bool) (t : list N) (sa : list N).
 
 Definition ok (c : case_t) : bool :=
   match c with
@@ -129,4 +131,5 @@ Definition ok (c : case_t) : bool :=
   | Dict t sa ranges conts das => ok_dict t sa ranges conts das
   | EsaAlg res t sa1 lp sa2 bw => ok_esa_alg res t sa1 lp sa2 bw
   | EsaComp wl t sa sp lp tl len empty => ok_esa_comp wl t sa sp lp tl len empty
+  | Sais opt t sa => match sais opt t with Some m => eqb_lnat m (map N.to_nat sa) | None => false end
   end.
